@@ -131,7 +131,7 @@ struct BytesWorld : World {
                 continue;
             }
 #endif
-            if (c < 12) pl.add("hexenc", {(int64_t)r.pickv({0, 1, 2, 7, 16, 33, 200}), (int64_t)r.below(2), (int64_t)r.below(5), (int64_t)(r.next() >> 1)});
+            if (c < 12) pl.add("hexenc", {(int64_t)r.pickv({0, 1, 2, 7, 16, 33, 200}), (int64_t)(r.chance(1, 2) ? r.below(2) : r.below(8)), (int64_t)r.below(5), (int64_t)(r.next() >> 1)});
             else if (c < 24) pl.add("hexdec", {(int64_t)r.pickv({0, 1, 2, 3, 8, 16, 33, 100}), (int64_t)r.below(4), (int64_t)r.below(5), (int64_t)(r.next() >> 1)});
             else pl.add("hexcpp", {(int64_t)r.pickv({0, 1, 2, 5, 16, 40}), (int64_t)r.below(4), (int64_t)r.below(4), (int64_t)(r.next() >> 1)});
         }
@@ -151,13 +151,16 @@ struct BytesWorld : World {
     void do_hexenc(Run &run, const Op &op)
     {
         size_t n = (size_t)(op.u(0) % 600);
-        bool upper = op.u(1) & 1;
+        // documented: "use uppercase hexadecimal letters if non-zero" - every int is a legal flag
+        static const int flagv[8] = {0, 1, 2, -1, 256, 32, 0x7fffffff, (int)0x80000000u};
+        int flag = flagv[op.u(1) % 8];
+        bool upper = flag != 0;
         Bytes in = bytes_of(n, op.u(3));
         size_t cap = cap_for(op.arg(2), 2 * n + 1);
         GuardBuf out(cap, (unsigned)n, false, 0x7e);
         GuardBuf ib(n, 3, false);
         ib.set(in);
-        int r = ascon_bytes_to_hex((char *)out.p, cap, ib.p, n, upper);
+        int r = ascon_bytes_to_hex((char *)out.p, cap, ib.p, n, flag);
         run.fold_u64((uint64_t)(int64_t)r);
         if (!out.intact()) run.violation("C12", "canary", "ascon_bytes_to_hex", "output canary damaged");
         run.state(fmt("enc/%s/%d", cap >= 2 * n + 1 ? "fits" : cap ? "short" : "zero", (int)upper));
